@@ -284,3 +284,137 @@ class Result:
             print('VIOLATION property=%s replay=%s%s' % (self.pid, path, ' no-failing-input-found' if no_input else ''))
         sys.stdout.flush()
         return 1 if self.violations else 0
+
+# ---------------------------------------------------------------------------
+# simmpi
+
+def simrun_exe():
+    src = os.path.join(VERIF, 'simmpi', 'simrun.cpp')
+    key = file_hash(src, os.path.join(VERIF, 'simmpi', 'simproto.h'))
+    out = os.path.join(BIN, 'simrun-%s' % key)
+    if not os.path.exists(out):
+        with Lock('bin-simrun'):
+            if not os.path.exists(out):
+                rc, log = sh(['g++', '-std=c++17', '-O2', '-o', out + '.tmp', src], timeout=300)
+                if rc != 0:
+                    raise RuntimeError('simrun does not compile:\n' + log)
+                os.rename(out + '.tmp', out)
+    return out
+
+def sim_dep_hash():
+    return file_hash(os.path.join(VERIF, 'simmpi', 'stub.cpp'), os.path.join(VERIF, 'simmpi', 'mpi.h'),
+                     os.path.join(VERIF, 'simmpi', 'simproto.h'))
+
+def compile_sim(name, sources, flags=()):
+    return compile_cxx(name, sources, flags=flags, mpi='simmpi', extra_dep_hash=sim_dep_hash())
+
+def simrun(exe, n, args=(), ppn=None, seed=1, policy='uniform', env=None, eager=None, logdir=None, glog=None,
+           wall=60, maxsteps=None, spin=None, cwd=None, timeout=None):
+    """Run a harness under simmpi.  Returns dict(verdict, detail, stats, out(lines without RESULT), raw)."""
+    cmd = [simrun_exe(), '-n', str(n), '-seed', str(seed), '-policy', policy, '-wall', str(wall)]
+    if ppn:
+        cmd += ['-ppn', str(ppn)]
+    if eager is not None:
+        cmd += ['-eager', str(eager)]
+    if logdir:
+        os.makedirs(logdir, exist_ok=True)
+        cmd += ['-logdir', logdir]
+    if glog:
+        cmd += ['-glog', glog]
+    if maxsteps:
+        cmd += ['-maxsteps', str(maxsteps)]
+    if spin:
+        cmd += ['-spin', str(spin)]
+    for k, v in (env or {}).items():
+        cmd += ['-env', '%s=%s' % (k, v)]
+    cmd += ['--', exe] + [str(a) for a in args]
+    rc, out = sh(cmd, timeout=timeout or (wall + 30), cwd=cwd)
+    lines = out.split('\n')
+    res = {'verdict': 'infra', 'detail': '', 'stats': {}, 'out': [], 'raw': out, 'cmd': ' '.join(cmd)}
+    for l in lines:
+        if l.startswith('RESULT '):
+            parts = l.split()
+            res['verdict'] = parts[1]
+            for p in parts[2:]:
+                if '=' in p and not p.startswith('detail='):
+                    k, v = p.split('=', 1)
+                    try:
+                        res['stats'][k] = int(v)
+                    except ValueError:
+                        pass
+            if 'detail=' in l:
+                res['detail'] = l.split('detail=', 1)[1]
+        else:
+            res['out'].append(l)
+    return res
+
+# ---------------------------------------------------------------------------
+# the standard shape of a check (DESIGN §3.5)
+
+def run_check(pid, tier, seed, prop, gen_needed, tie, search=None, trusted=(), assumptions=(), checker_note=''):
+    """prop: Properties_<id>.v; gen_needed: generated files this property's tie rests on;
+    tie(res) -> dict(ok:bool, msg:str, failures:[dict], validated:int, evaluations:int, nontrivial:int, rule:str,
+                     samples:[...], known:[str], extra:{})
+    search() -> [failure dicts] on an extended domain (called only when proofs or tie are broken and the tie's own
+    oracles found nothing)."""
+    res = Result(pid, tier, seed)
+    bad_src = audit_sources()
+    gen = gen_coq()
+    ok, log, fails = coq_make([prop + 'o'])
+    stats = proof_stats(prop)
+    gen_bad = {k: v for k, v in gen.items() if (k in gen_needed or k == 'translator') and not str(v).startswith('ok')}
+    proofs_ok = ok and stats['ok'] and not bad_src and not gen_bad
+    t = tie(res) or {}
+    failures = t.get('failures', [])
+    res.known.extend(t.get('known', []))
+    if failures:
+        res.violation('input', {'property': pid, 'kind': t.get('kind', 'enumeration'), 'failures': failures[:20],
+                                'how_to_replay': t.get('replay', '')},
+                      '%s oracle on the implementation: %s' % (pid, failures[0].get('what', failures[0])))
+    elif not proofs_ok or not t.get('ok', False):
+        broken = [{'file': f, 'line': l, 'statement': s, 'error': m} for f, l, s, m in fails]
+        if not t.get('ok', False):
+            broken.append({'correspondence': t.get('msg', 'tie not established')})
+        if bad_src:
+            broken.append({'audit': bad_src})
+        if gen_bad:
+            broken.append({'translator': gen_bad})
+        if not broken:
+            broken.append({'proof_check': stats.get('log_tail', '') or 'Print Assumptions did not report a closed proof for every theorem'})
+        found = search() if search else []
+        what = {'property': pid, 'kind': 'proof-obligation', 'broken': broken}
+        name = fails[0][2] if fails else (t.get('msg') or str(broken[0]))[:160]
+        if found:
+            what['failures'] = found[:20]
+            res.violation('input', what, '%s: %s no longer checks; failing input: %s' % (pid, name, found[0].get('what', found[0])))
+        else:
+            res.violation('proof', what, '%s: %s no longer checks' % (pid, name), no_input=True)
+    disch = stats.get('discharged', 0)
+    if not proofs_ok and disch >= stats.get('obligations', 0):
+        disch = max(stats.get('obligations', 1) - 1, 0)
+    res.coverage.update({
+        'obligations': stats.get('obligations', 0), 'discharged': disch,
+        'checker_cmd': 'cd coq && make %so && coqc -Q . Ygm %s   (Print Assumptions under every theorem)%s' % (prop, prop, checker_note),
+        'property_theorems': stats.get('property_theorems', []),
+        'closure_files': stats.get('closure', []),
+        'axioms_reported': stats.get('axioms_reported', []),
+        'translator_status': {k: v for k, v in gen.items() if k in gen_needed or k == 'translator'},
+        'tie': t.get('tie', ''),
+        'traces_validated_against_impl': t.get('validated', 0),
+        'evaluations': t.get('evaluations', 0), 'distinct_nontrivial': t.get('nontrivial', 0),
+        'rule': t.get('rule', ''), 'samples': t.get('samples', []),
+        'trusted_base': TRUSTED_COMMON + list(trusted),
+    })
+    if 'exhaustive' in t:
+        res.coverage['exhaustive'] = t['exhaustive']
+    res.coverage.update(t.get('extra', {}))
+    res.assumptions = list(assumptions)
+    return res.finish()
+
+def coq_eval(name, text, timeout=900):
+    """Write coq/Gen/Tab_<name>.v, compile it, return (rc, output)."""
+    v = os.path.join(COQ, 'Gen', 'Tab_%s.v' % name)
+    with open(v, 'w') as fh:
+        fh.write(text)
+    with Lock('coqtab-' + name):
+        return sh(['coqc', '-Q', '.', 'Ygm', 'Gen/Tab_%s.v' % name], cwd=COQ, timeout=timeout)
